@@ -636,6 +636,77 @@ Qed.
 Theorem C05_gen_primeq_complete : gen_primeq_ok = true.
 Proof. exact gen_primeq_complete. Qed.
 
+(** * (A') the EXECUTED whole-state model (Model/PrimEqFull.v: explicit_terms_full + implicit_terms_full at the concrete
+    operators of Model/SHT.v / Model/Deriv.v) at rest.  For every grid table set, every K, levels, constants:
+    if the MODAL state has no vorticity, no divergence and no temperature variation on the coefficient range, the reference
+    temperature is T0 on the K levels, and lnps = cst * (the (0,0)-only spectrum v00) - g orog / (R T0) as modal arrays, then on
+    every in-range coefficient the total tendency of vorticity, temperature and lnps is 0 and the divergence tendency is
+    exactly g (lap orog - clip (lap orog)): 0 below the clipped total wavenumber L-1.  Linearity of the five concrete
+    operators and lap(constant) = 0 are discharged (C04_concrete_operators_linear); NO table hypothesis remains. *)
+From Dino Require Import Model.SHT Model.Deriv Model.PrimEqFull Thm.PrimEqFull Thm.SteadyFull.
+
+Theorem C05_whole_state_rest_isothermal_steady {F : Type} {o : Ops F} {Fc : FieldC o}
+        (g : @HGrid F) (c : @PEcfg F) (grav T0 cst v00 : F) (orog : nat -> nat -> F) (s : @State F) :
+  cR c * T0 <> 0 -> (forall k, (k < cK c)%nat -> cTref c k = T0) ->
+  (forall k a l, (k < cK c)%nat -> (a < hR g)%nat -> (l < hL g)%nat -> s_vort s k a l = 0) ->
+  (forall k a l, (k < cK c)%nat -> (a < hR g)%nat -> (l < hL g)%nat -> s_div s k a l = 0) ->
+  (forall k a l, (k < cK c)%nat -> (a < hR g)%nat -> (l < hL g)%nat -> s_temp s k a l = 0) ->
+  (forall a l, (a < hR g)%nat -> (l < hL g)%nat ->
+               s_lnps s a l = cst * onem00 v00 (a, l) - grav / (cR c * T0) * orog a l) ->
+  forall k a l, (k < cK c)%nat -> (a < hR g)%nat -> (l < hL g)%nat ->
+    let E := explicit_terms_full g c grav orog s in
+    let I := implicit_terms_full g c s in
+    s_vort E k a l + s_vort I k a l = 0 /\
+    s_temp E k a l + s_temp I k a l = 0 /\
+    s_lnps E a l + s_lnps I a l = 0 /\
+    s_div E k a l + s_div I k a l = grav * (lapm g orog a l - clipm g (lapm g orog) a l) /\
+    ((l < hL g - 1)%nat -> s_div E k a l + s_div I k a l = 0).
+Proof.
+  intros H1 H2 H3 H4 H5 H6 k a l Hk Ha Hl.
+  exact (whole_state_rest_isothermal_steady g c grav T0 cst v00 orog s H1 H2 H3 H4 H5 H6 k a l Hk Ha Hl).
+Qed.
+
+(** non-vacuity: a zonal grid over Qc (M = 1, L = 3, one longitude, two latitudes), three uneven levels, orography with
+    content in every total wavenumber including the clipped one: every hypothesis holds, the implicit half is non-zero,
+    the total divergence tendency vanishes at l = 1 and is the non-zero residual at l = L - 1 = 2 *)
+Definition rest_grid : @HGrid Qc :=
+  mkHG 1 3 1 2 (Q2Qc 1)
+    (fun i a => match i, a with O, O => Q2Qc 1 | _, _ => 0 end)
+    (fun a j l => match a with
+                  | O => match l with
+                         | O => match j with O => Q2Qc 1 | S O => Q2Qc 1 | _ => 0 end
+                         | S O => match j with O => Q2Qc (-(1#1)) | S O => Q2Qc 1 | _ => 0 end
+                         | _ => 0 end
+                  | _ => 0 end)
+    (fun j => match j with O => Q2Qc (1#2) | S O => Q2Qc (1#2) | _ => 0 end)
+    (fun a l => match a with O => match l with S O => Q2Qc (3#4) | S (S O) => Q2Qc (1#3) | _ => 0 end | _ => 0 end)
+    (fun a l => match a with O => match l with O => Q2Qc (1#2) | S O => Q2Qc (1#5) | _ => 0 end | _ => 0 end)
+    (fun j => Q2Qc (4#3))
+    (fun j => match j with O => Q2Qc (-(1#2)) | _ => Q2Qc (1#2) end)
+    (Q2Qc (1#2)).
+Definition rest_orog (a l : nat) : Qc :=
+  match a, l with O, O => Q2Qc 3 | O, S O => Q2Qc (1#10) | O, S (S O) => Q2Qc (1#5) | _, _ => 0 end.
+Definition rest_lnps (a l : nat) : Qc :=
+  Q2Qc 3 * onem00 (Q2Qc 2) (a, l) - Q2Qc 9 / (cR ex_cfg * Q2Qc 250) * rest_orog a l.
+Definition rest_state : @State Qc := mkState (fun _ _ _ => 0) (fun _ _ _ => 0) (fun _ _ _ => 0) rest_lnps [].
+Example C05_whole_state_rest_hyps_satisfiable :
+  let E := explicit_terms_full rest_grid ex_cfg (Q2Qc 9) rest_orog rest_state in
+  let I := implicit_terms_full rest_grid ex_cfg rest_state in
+  cR ex_cfg * Q2Qc 250 <> 0 /\ (forall k, (k < cK ex_cfg)%nat -> cTref ex_cfg k = Q2Qc 250) /\
+  (forall a l, (a < hR rest_grid)%nat -> (l < hL rest_grid)%nat ->
+               s_lnps rest_state a l = Q2Qc 3 * onem00 (Q2Qc 2) (a, l) - Q2Qc 9 / (cR ex_cfg * Q2Qc 250) * rest_orog a l) /\
+  s_div I 1%nat 0%nat 1%nat <> 0 /\ s_div E 1%nat 0%nat 1%nat + s_div I 1%nat 0%nat 1%nat = 0 /\
+  s_div E 1%nat 0%nat 2%nat + s_div I 1%nat 0%nat 2%nat <> 0.
+Proof.
+  cbv zeta.
+  split; [intro H; vm_compute in H; discriminate H|].
+  split; [intros k _; reflexivity|].
+  split; [intros a l _ _; reflexivity|].
+  split; [intro H; vm_compute in H; discriminate H|].
+  split; [apply Qc_is_canon; vm_compute; reflexivity|].
+  intro H; vm_compute in H; discriminate H.
+Qed.
+
 Print Assumptions C05_rest_isothermal_steady.
 Print Assumptions C05_primeq_column_refines_spec.
 Print Assumptions C05_primeq_column_refines_spec_moist.
@@ -661,3 +732,5 @@ Print Assumptions C05_modal_hyps_satisfiable.
 Print Assumptions C05_rest_moist_hyps_satisfiable.
 Print Assumptions C05_model_is_source.
 Print Assumptions C05_gen_primeq_complete.
+Print Assumptions C05_whole_state_rest_isothermal_steady.
+Print Assumptions C05_whole_state_rest_hyps_satisfiable.
